@@ -31,6 +31,8 @@ class Session:
         self.shadow = None
         self.model = None
         self.pristine = None
+        self.other_alarms = []
+        self.collapsed = False
         self.violations = []
         self.stats = Counter()
         self.events = []  # (step, op kind, outcome digest)
@@ -56,6 +58,8 @@ class Session:
 
     # ------------------------------------------------------------------
     def fail(self, prop, clause, detail, sig=""):
+        if not sig and self.collapsed:
+            sig = "mux-inputs-collapsed-onto-one-parent"
         self.violations.append({"prop": prop, "clause": clause, "step": self.step, "detail": str(detail)[:600], "sig": sig})
         raise Stop()
 
@@ -306,9 +310,12 @@ class Session:
         werr = bool(op.get("werr"))
         # operations whose meaning the documentation leaves open are skipped
         if k == "del_comp" and m.del_ambiguous(op["name"], op["del_childs"]):
-            self.outcomes.append("skip")
-            self.stats["skipped_ambiguous"] += 1
-            return
+            if not op.get("collapse"):
+                self.outcomes.append("skip")
+                self.stats["skipped_ambiguous"] += 1
+                return
+            self.collapsed = True
+            self.stats["fault_fired:mux_inputs_collapsed"] += 1
         reason = self._must_reject(op)
         before_full = None
         if "C15" in self.enabled and op.get("probe_full"):
@@ -411,8 +418,13 @@ class Session:
         if prop in self.enabled:
             self.fail(prop, "sut-differs-from-shadow", "after %s %s: %s" % (k, _opsum(op), d))
         else:
-            self.violations.append({"prop": prop, "clause": "sut-differs-from-shadow(not enabled)", "step": self.step, "detail": d[:300]})
-            raise Stop()
+            # a violation of a property this run does not judge: it is counted,
+            # the real-code twins are given up (they are no longer comparable)
+            # and the session goes on with the model-based monitors, so that the
+            # property under check still sees what the system does next
+            if not self.twin_lost:
+                self.other_alarms.append({"prop": prop, "clause": "sut-differs-from-shadow(not enabled)", "step": self.step, "detail": d[:300]})
+            self.twin_lost = True
 
     def _must_reject(self, op):
         m, k = self.model, op["op"]
